@@ -293,6 +293,17 @@ let check_tokens (sc : scen) (s : (cmap, cmap, req, dstate) qworld) =
         | Some h -> h.count <- h.count + 1
         | None -> Hashtbl.replace shapes key { count = 1; stranded = 0; best = []; state = summary_string w ^ " QUEUE " ^ String.concat "," (List.map sctrl s.queue); who = sctrl c }
       end) (q_all_ctrls w);
+  (* wait (b): an enabled transaction at a gate is pending itself *)
+  List.iter (fun (i, (t : cmap txn)) ->
+      let gate_state = t.t_abort = None && t.t_apply = None &&
+                       ((t.t_init = Some Done && t.t_validate = None) || (t.t_validate = Some Done && t.t_commit = None) || (t.t_commit = Some Done)) in
+      if gate_state && (match p2_reconcile o_quiet w (CtlTx i) with ([], _) -> false | _ -> true) && not (List.mem (CtlTx i) s.queue) then begin
+        stat "gate_enabled_not_pending";
+        let key = "GATE-NOT-PENDING " ^ describe w (CtlTx i) in
+        match Hashtbl.find_opt shapes key with
+        | Some h -> h.count <- h.count + 1
+        | None -> Hashtbl.replace shapes key { count = 1; stranded = 0; best = []; state = summary_string w ^ " QUEUE " ^ String.concat "," (List.map sctrl s.queue); who = sctrl (CtlTx i) }
+      end) (w_txs w);
   stat "states_checked"
 
 let inv_on = Sys.getenv_opt "C09_INV" <> None
